@@ -288,3 +288,71 @@ func constStringVal(v ssa.Value) (string, bool) {
 }
 
 var _ = token.ADD
+
+// enumPathsTail: like enumPaths, but a path that ends in `return g(a, b, …)` — forwarding all
+// results of a call of a module function whose arguments are the caller's own parameters in the same
+// positions (e.g. a method extracted from the function, called on the same receiver) — is replaced by
+// its continuations through g. Keys are position-based ($0, $1, …), so they stay valid.
+func (c *Ctx) enumPathsTail(fn *ssa.Function, max int) ([]*Path, bool) {
+	paths, complete := c.enumPaths(fn, max)
+	var out []*Path
+	for _, p := range paths {
+		g := c.identityTailCallee(fn, p)
+		if g == nil {
+			out = append(out, p)
+			continue
+		}
+		sub, ok := c.enumPathsTail(g, max)
+		if !ok {
+			complete = false
+		}
+		for _, q := range sub {
+			n := &Path{Fn: fn, Ret: q.Ret, Cut: q.Cut, CutTo: q.CutTo, Env: q.Env}
+			n.Blocks = append(append([]*ssa.BasicBlock(nil), p.Blocks...), q.Blocks...)
+			n.Atoms = append(append([]Atom(nil), p.Atoms...), q.Atoms...)
+			n.Instrs = append(append([]ssa.Instruction(nil), p.Instrs...), q.Instrs...)
+			out = append(out, n)
+		}
+	}
+	return out, complete
+}
+
+func (c *Ctx) identityTailCallee(fn *ssa.Function, p *Path) *ssa.Function {
+	if p.Ret == nil || len(p.Ret.Results) == 0 {
+		return nil
+	}
+	var call *ssa.Call
+	for i, rv := range p.Ret.Results {
+		v := c.resolve(rv, p.Env)
+		var cl *ssa.Call
+		switch x := v.(type) {
+		case *ssa.Extract:
+			if x.Index != i {
+				return nil
+			}
+			cl, _ = x.Tuple.(*ssa.Call)
+		case *ssa.Call:
+			if len(p.Ret.Results) != 1 {
+				return nil
+			}
+			cl = x
+		}
+		if cl == nil || (call != nil && cl != call) {
+			return nil
+		}
+		call = cl
+	}
+	g := call.Call.StaticCallee()
+	if g == nil || g == fn || !inModule(g) || g.Blocks == nil || fnPkgPath(g) != fnPkgPath(fn) {
+		return nil
+	}
+	if len(call.Call.Args) > len(fn.Params) {
+		return nil
+	}
+	for i, a := range call.Call.Args {
+		if c.resolve(a, p.Env) != ssa.Value(fn.Params[i]) {
+			return nil
+		}
+	}
+	return g
+}
